@@ -71,6 +71,8 @@ class UnitReplayer:
             if not want:
                 if isinstance(q, SI.Quantity) or not close(q, val):
                     self.bad(e, 'parse', 'wrong-value', 'expected the number {}, got {!r}'.format(float(val), q))
+                else:
+                    self.check_call_plain(e, s, q)
             elif not isinstance(q, SI.Quantity) or real_powers(type(q)) != want:
                 self.bad(e, 'parse', 'wrong-dimension', 'expected powers {}, got {!r}'.format(want, q))
             elif type(q).__name__ != '[' + py(e['name']) + ']':
@@ -98,6 +100,26 @@ class UnitReplayer:
                 self.bad(e, 'call', 'not-rejected', '{}({!r}) accepted a quantity of class {}'.format(cls.__name__, s, type(q).__name__))
             elif not isinstance(exc, SI.DimensionError):
                 self.bad(e, 'call', 'rejected-with-' + type(exc).__name__, '{}({!r}) raised {!r}'.format(cls.__name__, s, exc))
+
+    def check_call_plain(self, e, s, q):
+        'a dimensionless string: accepted by Dimensionless (as a number), refused by every dimensional class'
+        SI = self.SI
+        try:
+            r = SI.Dimensionless(s)
+        except Exception as ex:
+            self.bad(e, 'call', 'own-class-refused', 'Dimensionless({!r}) raised {!r}'.format(s, ex))
+        else:
+            if isinstance(r, SI.Quantity) or r != q:
+                self.bad(e, 'call', 'own-class-refused', 'Dimensionless({!r}) gave {!r}'.format(s, r))
+        for cls in (SI.Length, SI.Velocity):
+            try:
+                r = cls(s)
+            except SI.DimensionError:
+                pass
+            except Exception as ex:
+                self.bad(e, 'call', 'rejected-with-' + type(ex).__name__, '{}({!r}) raised {!r}'.format(cls.__name__, s, ex))
+            else:
+                self.bad(e, 'call', 'not-rejected', '{}({!r}) accepted the dimensionless {!r}'.format(cls.__name__, s, r))
 
     # -- nutils.unit ------------------------------------------------------------
     def do_unitpy(self, e, s):
